@@ -79,6 +79,9 @@ NewCall ==
        \/ "aseeds" \in Ops /\ \E z \in Lims : Begin(ASeedsBegin(z, MtsOrder(D.nodes[1].space)), <<"aseeds", z>>)
        \/ "block" \in Ops /\ calls = 0 /\ \E mz \in BOOLEAN, os \in BOOLEAN, z \in Lims :
               Begin(BlockBegin(mz, z, os, FALSE), <<"block", mz, z, os>>)
+       \/ "scc" \in Ops /\ \E mz \in BOOLEAN, ex \in BOOLEAN :
+              LET r == SccRun(S, cfg.maxm, D, mz, IF ex THEN OrcExact ELSE OrcSeq(<<>>))
+              IN Atomic(r.d, r.ret, <<"scc", mz>>)
        \/ "skipmin" \in Ops /\ \E n \in Ids(D) :
               LET r == SkipToMinimal(S, D, n, MtsOrder(D.nodes[n].space), cfg.failat = 1) IN Atomic(r[1], r[2], <<"skipmin", n>>)
        \/ "skiprem" \in Ops /\ IF cfg.failat = 1 THEN Atomic(D, "error", <<"skiprem">>)
@@ -109,7 +112,7 @@ CallsTerminate == [](~fr.done => <>fr.done)
 OnlyPlain == plain
 
 Inv_WF == RootOK(S, D) /\ EdgesWF(D) /\ IndexExact(D) /\ NodesArePercolatedTraps(S, D)
-Inv_PartialFaithful == PartialFaithful(S, D)
+Inv_PartialFaithful == PartialFaithfulS(S, D, plain)
 Inv_DepthExact == DepthExact(D)
 Inv_CacheFresh == CacheFresh(S, D)
 \* C04: in histories of plain calls nothing is ever "other"
@@ -123,6 +126,7 @@ Inv_FullExact == (OnlyPlain /\ (Completed("bfs") \/ Completed("dfs")) /\ fr.star
 \* C03: completed strategies from the root (after any prefix) have exactly the minimal trap spaces
 Inv_MinExact == ( \/ ((Completed("bfs") /\ fr.limlvl = Unl) \/ (Completed("dfs") /\ fr.limstk = Unl) \/ Completed("min")) /\ fr.start = 1
                   \/ Completed("aseeds") \/ Completed("block")
+                  \/ (fr.done /\ fr.op = "scc" /\ fr.ret = "true" /\ calls = 1)
                   \/ (fr.done /\ fr.op = "skiprem" /\ fr.ret # "error") )
                 => MinExact(S, D)
 \* C15: True means completed; a size-limited False means an unexpanded node remains
